@@ -51,6 +51,10 @@ def generate(ctx):
     nums = [('i', x) for x in gen.INT_POOL] + [('u', x) for x in gen.UINT_POOL] + [('d', x) for x in gen.FLOAT_POOL + gen.SPECIAL_FLOATS[:3]]
     zeros = [('d', gen.float_to_bits(-0.0)), ('d', 0), ('u', 0), ('i', 0)]
     pairs = [(x, y) for x in zeros for y in zeros + [('i', -1), ('d', gen.float_to_bits(-0.5)), ('d', gen.float_to_bits(5e-324)), ('d', gen.float_to_bits(-5e-324)), ('u', 1)]]
+    for f in gen.FLOAT_POOL:
+        x = gen.bits_to_float(f)
+        if abs(x) < 2.0 ** 53:
+            pairs += [(('d', f), ('i', int(x) + d)) for d in (-1, 0, 1)]
     for _ in range(ctx.scale(800, 30000)):
         pairs.append((r.choice(nums), r.choice(nums)))
     for j, (x, y) in enumerate(pairs):
